@@ -263,6 +263,14 @@ def paired_writes(prog, owner, buf_field, count_field, either_side=False):
 def pairing_rule(res, prog, rule, owner, buf_field, count_field, floor, either_side=True):
     """instantiate paired_writes as a rule: violation when a method can change the buffer and return with the counter untouched"""
     n = 0
+    adt = prog.adts.get(owner)
+    names = [x[0] for v in (adt or {}).get("variants", []) for x in v.get("fields", [])]
+    if buf_field not in names or count_field not in names:
+        # a private field was renamed: the pairing is not decided (no evidence either way)
+        res.undecided += 1
+        res.extra.setdefault("undecided_items", []).append("%s.pair: %s no longer has fields `%s` and `%s`" % (rule, owner, buf_field, count_field))
+        res.rule(rule + ".pair", 0, floor, "writes of %s.%s paired with %s" % (owner.rsplit("::", 1)[-1], buf_field, count_field))
+        return
     for f, m, ok in paired_writes(prog, owner, buf_field, count_field, either_side):
         n += 1
         res.obligations += 1
@@ -271,3 +279,95 @@ def pairing_rule(res, prog, rule, owner, buf_field, count_field, floor, either_s
         else:
             res.violate(rule, "%s|%s|unpaired-%s" % (rule, f.id, buf_field), "%s can change `%s` and return without `%s` having been updated on that path" % (f.id, buf_field, count_field), f.id)
     res.rule(rule + ".pair", n, floor, "writes of %s.%s paired with %s" % (owner.rsplit("::", 1)[-1], buf_field, count_field))
+
+
+def max_store_verdict(prog, fn, s, block, val, is_old):
+    """three-valued: is the store of `val` at `block` a max-merge with the old content?
+    True: val is max(old, x), or the store is dominated by a guard ordering the stored value above the old one;
+    False: positive evidence of the opposite (min(), a guard ordering it below, or no ordering guard at all);
+    None: guards present but not recognised.  `is_old(expr)` says whether an expression reads the old content."""
+    def strip(e):
+        while isinstance(e, tuple) and e and e[0] == "cast":
+            e = e[1]
+        return e
+    v = strip(resolve_var(prog, fn, val, s))
+    if v[0] == "call" and v[1].rsplit("::", 1)[-1] == "max" and any(is_old(a) for a in v[2]):
+        return True
+    if v[0] == "call" and v[1].rsplit("::", 1)[-1] == "min" and any(is_old(a) for a in v[2]):
+        return False
+    facts = s.cmp_facts_at(block)
+    seen_cmp = False
+    for x in facts:
+        if x[0] in ("Gt", "Lt", "Ge", "Le") and len(x) == 3:
+            seen_cmp = True
+            a, c, op = strip(resolve_var(prog, fn, x[1], s)), strip(resolve_var(prog, fn, x[2], s)), x[0]
+            if op in ("Lt", "Le"):
+                a, c = c, a
+            # now a >(=) c
+            if a == v and is_old(c):
+                return True
+            if c == v and is_old(a):
+                return False
+        elif x[0] in ("true", "false"):
+            seen_cmp = True
+    return None if seen_cmp else False
+
+
+def path_pred(s, block, prog=None):
+    """predicate env -> True / False / None: is `block` reached in a state described by env?  (exact path conditions of
+    every acyclic path; a decision that cannot be evaluated makes that path unknown)"""
+    from .. import formula
+    paths = s.path_conditions(block)
+
+    def pred(env):
+        if paths is None:
+            return None
+        unknown = False
+        for p in paths:
+            ok = True
+            for c, tv in p:
+                try:
+                    v = formula.evaluate(c, env)
+                except (formula.Uneval, TypeError, IndexError, ZeroDivisionError):
+                    ok = None
+                    break
+                if isinstance(v, tuple):
+                    ok = None
+                    break
+                if (tv[0] == "eq" and v != tv[1]) or (tv[0] == "ne" and v in tv[1]):
+                    ok = False
+                    break
+            if ok:
+                return True
+            if ok is None:
+                unknown = True
+        return None if unknown else False
+    return pred
+
+
+def facts_pred(s, block):
+    """predicate env -> (holds, n_evaluated): do all *evaluable* dominating branch facts of `block` hold in env?"""
+    from .. import formula
+    facts = s.cmp_facts_at(block)
+
+    def pred(env):
+        n = 0
+        for x in facts:
+            if len(x) == 3 and x[0] in ("Lt", "Le", "Gt", "Ge", "Eq", "Ne"):
+                e = ("bin", x[0], x[1], x[2])
+                want = 1
+            elif x[0] in ("true", "false"):
+                e, want = x[1], (1 if x[0] == "true" else 0)
+            else:
+                continue
+            try:
+                v = formula.evaluate(e, env)
+            except (formula.Uneval, TypeError, IndexError, ZeroDivisionError):
+                continue
+            if isinstance(v, tuple):
+                continue
+            n += 1
+            if bool(v) != bool(want):
+                return False, n
+        return True, n
+    return pred
